@@ -388,6 +388,28 @@ def val2(ctx, pid):
             ctx.ok(c, f.loc(lcs[0]), "validate_length(branch, len(key) * 8) dominates every use of branch")
         else:
             ctx.bad(c, f.loc(), "branch is used on a path before its length is validated")
+    # (b2) SparseMerkleProof construction: key and value are byte strings before anything is stored
+    f = ctx.P.func(PROOF + ".__init__")
+    for pn in f.params[1:3]:
+        n += 1
+        c = "ctor-bytes:%s(%s)" % (fkey(f), pn)
+        vcalls = []
+        for n_ in walk_shallow(f.node):
+            if isinstance(n_, ast.Call) and any(t.kind == "def" and t.func.qual in BYTES_VALIDATORS for t in ctx.R.resolve_call(n_, f, count=False)) \
+                    and n_.args and isinstance(n_.args[0], ast.Name) and n_.args[0].id == pn:
+                vcalls.append(n_)
+        if not vcalls:
+            ctx.bad(c, f.loc(), "SparseMerkleProof(%s=..) is not checked with validate_is_bytes: a non-bytes %s is stored and fails later, in update / root_hash" % (pn, pn))
+            continue
+
+        def stores(ev):
+            return ev.k == "stmt" and isinstance(ev.node, (ast.Assign, ast.AugAssign, ast.AnnAssign)) and any(
+                isinstance(t, ast.Attribute) for t in (ev.node.targets if isinstance(ev.node, ast.Assign) else [ev.node.target]))
+        ok, cnt = _dominates(ctx, f, vcalls[0], stores)
+        if ok:
+            ctx.ok(c, f.loc(vcalls[0]), "validate_is_bytes(%s) dominates every attribute store of the constructor" % pn)
+        else:
+            ctx.bad(c, f.loc(), "the proof object is written before `%s` is validated" % pn)
     # (c) from_db root hash is 32 bytes
     f = ctx.P.func(SMT + ".from_db")
     n += 1
@@ -538,7 +560,8 @@ def val3(ctx, pid):
     f = ctx.P.func(HEX + ".__init__")
     c = "refcount-guard:HexaryTrie.__init__"
     res = {}
-    for rc_none in (True, False):
+    for rc in ("none", "empty", "full"):
+        rc_none = rc == "none"
         for prune in (True, False):
             outs = set()
             for p in ctx.X.paths(f):
@@ -552,6 +575,8 @@ def val3(ctx, pid):
                         v = rc_none
                     elif src == "ref_countisnotNone":
                         v = not rc_none
+                    elif src == "ref_count":
+                        v = rc == "full"  # truthiness: None and an empty mapping are both falsy
                     elif src == "prune":
                         v = prune
                     elif "ref_count" in src or "prune" in src:
@@ -565,17 +590,17 @@ def val3(ctx, pid):
                     if p.exit[0] == "raise" and p.exit[1] != "ValueError":
                         continue  # argument validation of another parameter
                     outs.add("ValueError" if p.exit[0] == "raise" else "ok")
-            res[(rc_none, prune)] = outs
-    want = {(True, True): "ok", (True, False): "ok", (False, True): "ok", (False, False): "ValueError"}
+            res[(rc, prune)] = outs
+    want = {("none", True): "ok", ("none", False): "ok", ("empty", True): "ok", ("full", True): "ok", ("empty", False): "ValueError", ("full", False): "ValueError"}
     problems = []
     for k, w in want.items():
         got = res[k] - {"raise"} if w == "ok" else res[k]
         if "?" in res[k]:
             problems.append("uninterpreted guard")
         elif w == "ValueError" and got != {"ValueError"}:
-            problems.append("ref_count given with prune=False is not refused with ValueError (outcomes %s)" % sorted(res[k]))
+            problems.append("%s ref_count given with prune=False is not refused with ValueError (outcomes %s)" % ("an empty" if k[0] == "empty" else "a", sorted(res[k])))
         elif w == "ok" and "ValueError" in res[k]:
-            problems.append("legal combination ref_count %s / prune=%s is refused" % ("None" if k[0] else "given", k[1]))
+            problems.append("legal combination ref_count %s / prune=%s is refused" % ("None" if k[0] == "none" else "given", k[1]))
     if "uninterpreted guard" in problems:
         ctx.unsure(c, f.loc(), "guards on ref_count / prune have a shape the rule does not interpret")
     elif problems:
@@ -725,3 +750,35 @@ def _is_nibbles_conv(ctx, f, par, u, ann):
                 return False
         return bool(uses)
     return False
+
+
+@rule("VALMSG", ["C18"])
+def valmsg(ctx, pid):
+    """A refusal must be raised as the class the code names: building its message may not fail first.
+    `"... %r" % value` with the bare, still unvalidated parameter raises TypeError for a tuple argument
+    (exactly the kind of argument a type check is rejecting); f-strings, str.format and `% (value,)` are safe."""
+    from ..core import prop_scope
+    scope = prop_scope(pid)
+    n = 0
+    bad = []
+    for f in util.all_functions(ctx, include_tools=False):
+        if scope is not None and f.module.rel not in scope:
+            continue
+        for r in walk_shallow(f.node):
+            if not (isinstance(r, ast.Raise) and isinstance(r.exc, ast.Call)):
+                continue
+            cls = ast.unparse(r.exc.func)
+            n += 1
+            if cls == "TypeError":
+                continue  # a failing format would raise the same class
+            for b in ast.walk(r.exc):
+                if isinstance(b, ast.BinOp) and isinstance(b.op, ast.Mod) and isinstance(b.left, (ast.Constant, ast.JoinedStr)) \
+                        and (not isinstance(b.left, ast.Constant) or isinstance(b.left.value, str)):
+                    if isinstance(b.right, ast.Name) and b.right.id in f.all_params():
+                        bad.append((f, r, b))
+    for f, r, b in bad:
+        ctx.bad("refusal-message:%s:%s" % (fkey(f), util.norm_src(b.right)), f.loc(r),
+                "`%s`: %%-formatting with the bare parameter `%s` raises TypeError when it is a tuple, so the %s is never raised for such an argument"
+                % (util.norm_src(b)[:70], b.right.id, ast.unparse(r.exc.func)))
+    if not bad:
+        ctx.ok("refusal-messages", "trie/", "%d raise sites in scope: no refusal message is %%-formatted with a bare parameter" % n, nontrivial=bool(n))
